@@ -135,6 +135,34 @@ def run_program(tid: int, program: list, pool: list, hook, out: list) -> None:
                 except BaseException:  # noqa: BLE001
                     out.append({"note": "injected", "id": f"t{tid}o{oi}", "kind": "buildbad"})
             continue
+        if op[0] == "churn":
+            # classes come and go: `n` times, a throw-away class shaped like pool[ci] (other leaf types, other
+            # nested classes) fails to get a reader / writer and is dropped and collected; then pool[ci]'s
+            # class is defined afresh (new class and annotation objects, possibly at the addresses just
+            # freed) and one value is written and read with it.  What the fresh class produces must be
+            # F(description, value) like any other call.
+            import gc
+            from . import synth
+            _, ci, vi, n = op
+            ent = pool[ci]
+            for r in range(n):
+                for f in (entity_writer, entity_reader):
+                    try:
+                        f(synth.dying_class(ent["schema"]))
+                        out.append({"note": "bad_class_accepted", "id": f"t{tid}o{oi}"})
+                    except BaseException:  # noqa: BLE001
+                        pass
+                gc.collect()
+                cls = synth.fresh_class(ent["schema"])
+                ent2 = dict(ent, cls=cls,
+                            instances=[project.build_entity(v, ent["schema"]) for v in ent["values"]])
+                sub: list = []
+                run_program(tid, [("w", 0, (vi + r) % 2, 0), ("r", 0, (vi + r) % 2, 0)], [ent2], hook, sub)
+                for k, c in enumerate(sub):
+                    c["id"] = f"t{tid}o{oi}c{r}_{k}"
+                out.extend(sub)
+                del cls, ent2, sub
+            continue
         kind, ci, vi, fail_at = op
         ent = pool[ci]
         if kind == "wbad":
@@ -410,7 +438,7 @@ def materialise_pool(pool: list, encoded: list) -> list:
             cls = getattr(importlib.import_module(ent["mod"]), ent["qual"])
             schema = project.project_schema(cls)
         insts = [project.build_entity(v, schema) for v in ent["values"]]
-        out.append({"cls": cls, "schema": schema, "values": ent["values"],
+        out.append({"cls": cls, "schema": schema, "values": ent["values"], "synth": ent["mod"] == "<synth>",
                     "instances": insts, "bad": [bad_variants(i, schema) for i in insts],
                     "bytes": [project.unbabs(enc[f"pool{ci}_{vi}"]["b"]) for vi in range(2)]})
     return out
